@@ -1,1 +1,52 @@
-(* placeholder *)
+(* C04 — modules and hierarchy mirror the scanned directory tree, named from root_path. *)
+From Coq Require Import List Bool NArith.
+From PTA Require Import Names Graph Search Scan NamesProofs SearchProofs GraphProofs ScanProofs.
+Import ListNotations.
+
+(* one module per non-excluded .py file and per non-excluded directory at or below the starting directory,
+   none of whose ancestors down from there is excluded, named root :: path - and nothing else *)
+Theorem C04_modules : forall (comp : Type) excl (root : comp) (n : @fsnode comp) path m,
+  In m (fst (walk excl root path n)) <->
+  exists p, In (p, true) (node_paths n) /\ m = root :: path ++ p /\ not_excluded_below excl path p.
+Proof. exact @walk_modules. Qed.
+Print Assumptions C04_modules.
+
+(* every parsed file is one of those modules *)
+Theorem C04_files_are_modules : forall (comp : Type) excl (root : comp) (n : @fsnode comp) path u body,
+  In (u, body) (snd (walk excl root path n)) -> In u (fst (walk excl root path n)).
+Proof. exact @walk_files. Qed.
+Print Assumptions C04_files_are_modules.
+
+(* the graph's nodes: the modules and every ancestor package up to the root *)
+Theorem C04_nodes :
+  forall (comp : Type) (ceqb : comp -> comp -> bool), (forall x y, reflect (x = y) (ceqb x y)) ->
+  forall lim mods imports n,
+  In n (build_nodes ceqb lim mods imports) <->
+  (exists m, In m mods /\ (n = fl lim m \/ exists p, In p (proper_prefixes m) /\ n = fl lim p)) \/
+  (exists e p, In e imports /\ In p (proper_prefixes (fst e)) /\ n = fl lim p).
+Proof. exact @in_build_nodes. Qed.
+Print Assumptions C04_nodes.
+
+(* the hierarchy is the name order: the node set is closed under ancestors, and the sub modules of a module
+   (what the graph searches enumerate) are exactly the nodes whose name extends it *)
+Theorem C04_ancestor_closed :
+  forall (comp : Type) (ceqb : comp -> comp -> bool), (forall x y, reflect (x = y) (ceqb x y)) ->
+  forall mods imports n p,
+  In n (build_nodes ceqb None mods imports) -> In p (proper_prefixes n) -> In p (build_nodes ceqb None mods imports).
+Proof. exact @build_nodes_ancestor_closed. Qed.
+Print Assumptions C04_ancestor_closed.
+
+Theorem C04_sub_modules :
+  forall (comp : Type) (ceqb : comp -> comp -> bool) (g : @graph comp) n x,
+  In x (desc_incl ceqb g n) <-> In x (nodes g) /\ prefixb ceqb n x = true.
+Proof. exact @in_desc_incl. Qed.
+Print Assumptions C04_sub_modules.
+
+(* non-vacuity: proj/{a.py, pkg/{__init__.py, b.py, notes.txt}, ab/} scanned from proj/pkg *)
+Open Scope N_scope.
+Example C04_example :
+  let tree := [FFile 2 true []; FDir 3 [FFile 9 true []; FFile 4 true []; FFile 5 false []]; FDir 6 []] in
+  let c := {| sc_root := 1; sc_tree := tree; sc_mp := [3]; sc_excl := fun _ => false; sc_exclude_external := true;
+              sc_ext_excl := fun _ => false; sc_has_ext_excl := false; sc_limit := None |} in
+  option_map (fun r => nodes (sr_graph r)) (scan N.eqb c) = Some [[1;3]; [1]; [1;3;9]; [1;3;4]].
+Proof. vm_compute. reflexivity. Qed.
